@@ -221,6 +221,50 @@ func c18Failover(x *X) {
 	s.close()
 }
 
+// three targets: one dies and another recovers within the same detector period
+func c18Swap(x *X) {
+	form := []int{cfCall, cfGo, cfPing}[x.Choose(3)]
+	s := newCliSys(x, rpc.RoundRobinScheduling, "a", "b", "c")
+	dying := []string{"a", "b"}[x.Choose(2)]
+	s.rt.up["a"], s.rt.up["b"], s.rt.up["c"] = true, true, false
+	s.tick(2)
+	for i := 0; i < 3; i++ {
+		clientCall(s.c, form)
+	}
+	// the swap
+	s.rt.up[dying] = false
+	s.rt.up["c"] = true
+	hit := x.Choose(3) // calls between the swap and the next detector tick (one of them hits the dying target)
+	for i := 0; i < hit; i++ {
+		clientCall(s.c, form)
+	}
+	s.tick(1)
+	var firstFail time.Duration = -1
+	cUsed := false
+	for i := 0; i < 9; i++ {
+		from := len(s.rt.routed)
+		clientCall(s.c, form)
+		for _, r := range s.rt.userRoutes(from) {
+			if r.addr == dying {
+				if firstFail < 0 {
+					firstFail = r.at
+				} else if r.at-firstFail > 2*cTick {
+					x.Fail("C18/no-failover/swap", "target %s refused a %s call at %v and was still chosen at %v while two other targets are healthy (c recovered in the same detector period)", dying, cfNames[form], firstFail, r.at)
+				}
+			}
+			if r.addr == "c" {
+				cUsed = true
+			}
+		}
+		s.tick(1)
+	}
+	if !cUsed {
+		x.Fail("C18/recovered-target-unused", "target c recovered 10 detector ticks ago but none of 9 round-robin calls went to it (target %s died in the same period)", dying)
+	}
+	x.Outcome("form=%s dying=%s hit=%d firstFail=%v cUsed=%v", cfNames[form], dying, hit, firstFail, cUsed)
+	s.close()
+}
+
 // Fallback pauses routing; callers wait and are released afterwards (or time out)
 func c18Fallback(x *X) {
 	s := newCliSys(x, rpc.RoundRobinScheduling, "a", "b")
@@ -267,5 +311,6 @@ func init() {
 	register(&Scenario{Prop: "C18", Name: "c18/close-2", Quick: []Bound{{1, 0}, {2, 0}}, Thorough: []Bound{{3, 0}}, Body: c18Close(2), MaxSteps: 100000})
 	register(&Scenario{Prop: "C18", Name: "c18/close-3", Quick: []Bound{{1, 0}}, Thorough: []Bound{{2, 0}}, Body: c18Close(3), MaxSteps: 100000})
 	register(&Scenario{Prop: "C18", Name: "c18/failover", Quick: []Bound{{0, 0}, {1, 0}}, Thorough: []Bound{{2, 0}}, Body: c18Failover, MaxSteps: 100000})
+	register(&Scenario{Prop: "C18", Name: "c18/swap-3targets", Quick: []Bound{{1, 0}, {2, 0}}, Thorough: []Bound{{3, 0}}, Body: c18Swap, MaxSteps: 100000})
 	register(&Scenario{Prop: "C18", Name: "c18/fallback", Quick: []Bound{{1, 0}}, Thorough: []Bound{{2, 0}}, Body: c18Fallback, MaxSteps: 100000})
 }
